@@ -413,7 +413,12 @@ var ecQuery = editorconfig.Query{
 
 func propsOptions(lang syntax.LangVariant, props editorconfig.Section) (_ syntax.LangVariant, validLang bool) {
 	// if shell_variant is set to a valid string, it will take precedence
+	detected := lang
 	langErr := lang.Set(props.Get("shell_variant"))
+	if lang == syntax.LangAuto {
+		// "auto" means what it means for the -ln flag: keep the detected language.
+		lang = detected
+	}
 	syntax.Variant(lang)(parser)
 
 	size := uint(0)
